@@ -28,13 +28,45 @@ class CHECK(Check):
             "as a layout shared by the text and the binary flavour of a format is): in the small scope every list is also run with "
             "its LINEs declared BINARY/TEXT, among the random histories about half of the classes declare one, so that a class is "
             "read through a file class whose STORAGE differs from the storage its LINE declares; the reading is governed by the "
-            "file's storage, hence the same model entry and the same bound.")
+            "file's storage, hence the same model entry and the same bound. "
+            "(g) how the reading arguments reach the library: File.read forwards *args and **kwargs to the reading loop and to every "
+            "component's read, so the peek window of a register file is given positionally (as before) or by keyword "
+            "(RegisterFile.read(content, linesize=n)): the binary small scope is run in both forms, among all other register-file "
+            "reads (measured ones and every read of a history, text reads included, where the window is unused) about half pass it "
+            "by keyword. The reading is the same function of the content either way: same model entry, same bound.")
     exhaustive = True
 
     def entry_of(self, case):
         return {"reg": "REGFILE", "block": "BLOCKFILE", "section": "SECTIONFILE"}[case["fam"]]
 
     def gen(self, tier, rng):
+        """(g) the generated cases, plus the way the peek window is handed to RegisterFile.read ("kw": by keyword); the flag is drawn
+        from a generator derived from the case, so that the main random stream is the one it was"""
+        import random
+        for case in self.gen_base(tier, rng):
+            if case["fam"] != "reg":
+                yield case
+                continue
+            if case.pop("small_binary_scope", False):
+                yield case
+                yield dict(case, kw=True)
+                continue
+            r4 = random.Random("C18 reading arguments %r" % (case,))
+            for st in case.get("before", []):
+                if r4.random() < 0.5:
+                    st["kw"] = True
+            if r4.random() < 0.5:
+                case["kw"] = True
+            yield case
+
+    @staticmethod
+    def call_read(F, arg, binary, linesize, kw):
+        """RegisterFile.read with the peek window given positionally (binary reads; text reads pass none), or by keyword"""
+        if kw:
+            return F.read(arg, linesize=linesize)
+        return F.read(arg, linesize) if binary else F.read(arg)
+
+    def gen_base(self, tier, rng):
         import itertools, random
         r2 = random.Random(99)
         # (b) binary register files, complete small scope
@@ -48,7 +80,7 @@ class CHECK(Check):
             for n in range(0, 4):
                 for t in itertools.product(alpha, repeat=n):
                     for ls in (1, max(1, defs[0]["digits"])):
-                        yield {"fam": "reg", "binary": True, "defs": defs, "linesize": ls, "content": "".join(t)}
+                        yield {"fam": "reg", "binary": True, "defs": defs, "linesize": ls, "content": "".join(t), "small_binary_scope": True}
         nb = 1200 if tier == "quick" else 30000
         for _ in range(nb):
             defs = gen_defs(rng, "binary")
@@ -224,13 +256,13 @@ class CHECK(Check):
 
     TMP = None
 
-    def read_regfile(self, F, binary, content, linesize):
+    def read_regfile(self, F, binary, content, linesize, kw=False):
         """one RegisterFile.read under its own call budget -> observation of that read"""
         content = content.encode("latin-1") if binary else content
         budget = 20000 + 1500 * (len(content) + 1)
         try:
             with lib.budget(budget):
-                f = F.read(content, linesize) if binary else F.read(content)
+                f = self.call_read(F, content, binary, linesize, kw)
                 n = 0
                 for _ in f.data:
                     n += 1
@@ -271,7 +303,7 @@ class CHECK(Check):
             for st in case.get("before", []):
                 if st["binary"] not in fcls:
                     fcls[st["binary"]] = reglib.mk_file_class(regs, st["binary"])
-                before.append(self.read_regfile(fcls[st["binary"]], st["binary"], st["content"], st["linesize"]))
+                before.append(self.read_regfile(fcls[st["binary"]], st["binary"], st["content"], st["linesize"], st.get("kw", False)))
                 if not before[-1]["terminated"]:
                     return {"terminated": False, "measured_read_not_run": True, "before": before}
             F = fcls.get(case["binary"]) or reglib.mk_file_class(regs, case["binary"])
@@ -284,7 +316,7 @@ class CHECK(Check):
         try:
             with lib.budget(budget):
                 if case["fam"] == "reg":
-                    f = F.read(content_arg, case["linesize"]) if case["binary"] else F.read(content_arg)
+                    f = self.call_read(F, content_arg, case["binary"], case["linesize"], case.get("kw", False))
                 elif case["fam"] == "block":
                     blocks = bl.mk_block_classes(case["blocks"], case["binary"])
                     f = bl.mk_blockfile_class(blocks, case["binary"]).read(content_arg)
@@ -361,6 +393,11 @@ class CHECK(Check):
 
     def classify(self, case):
         d = {"fam_" + case["fam"]: 1, "binary" if case["binary"] else "text": 1, "len_%02d" % min(len(case["content"]), 30): 1}
+        if case["fam"] == "reg":
+            for st in case.get("before", []) + [case]:
+                d["window_by_keyword" if st.get("kw") else "window_positional_or_default"] = 1
+                if st.get("kw"):
+                    d["window_by_keyword_%s_read" % ("binary" if st["binary"] else "text")] = 1
         if "before" in case:
             d["shared_register_classes"] = 1
             d["history_%d_earlier_reads" % len(case["before"])] = 1
@@ -386,6 +423,14 @@ class CHECK(Check):
 
     def shrink(self, case):
         CHECK.shrinking = True
+        # the reading arguments handed over the default way
+        if case.get("kw"):
+            yield {k: v for k, v in case.items() if k != "kw"}
+        for i, st in enumerate(case.get("before", [])):
+            if st.get("kw"):
+                c = dict(case)
+                c["before"] = case["before"][:i] + [{k: v for k, v in st.items() if k != "kw"}] + case["before"][i + 1:]
+                yield c
         # a history: fewer earlier reads, fewer register classes, no delimiter, shorter earlier contents
         bef = case.get("before", [])
         for i in range(len(bef)):
